@@ -358,6 +358,18 @@ func (tr *Trans) attachInvariants(res *FuncResult) {
 		}
 		sc := tr.loopScope(l)
 		for ci, cl := range cls {
+			if cl.After != "" {
+				// a function-wide invariant that only holds from a certain loop on
+				ref := byKey[cl.After]
+				if ref == nil {
+					tr.eng.fatal("%s:%d: loopinv %q: no loop %q in %s", ct.File, cl.Line, cl.Name, cl.After, tr.name)
+					continue
+				}
+				if !(l.Pos > ref.Pos) {
+					continue
+				}
+				cl.Used = true
+			}
 			te, err := sc.elab(cl.E)
 			if err != nil && ct != nil && ci < len(ct.LoopInvs) && strings.Contains(err.Error(), "unknown identifier") {
 				// a function-wide loop invariant that mentions a local not yet declared at this loop
